@@ -60,6 +60,11 @@ CHECKS = {
    text="Regenerates all of std (and four hand-written multi-file packages) with the working tree's compiler under every configuration and compares SHA-256 of every generated file: directory order (every permutation of creation order on tmpfs for three std packages, raw Readdirnames orders recorded), map iteration order (all 10 range-over-map sites of lang/*, internal/cgen, cmd/wuffs*, gen.go found at check time and forced to asc/desc/rot1 through an overlay twin; per-site hit counters show which loops really ran with >= 2 keys), GOMAXPROCS {1,2,16}, TZ/LANG/HOME/USER/TMPDIR/hostname/cwd/root-path variants, re-runs. Equalities: regenerated monolithic release == release/c/wuffs-unsupported-snapshot.c; go run gen.go == lang/check/data.go.",
    note="Map order is explored at 1 (thorough: up to 3) deviating sites with three orders, not all permutations. Wall-clock time is not varied. Go scheduler/select randomness is only sampled by re-runs and GOMAXPROCS.",
    ref="DESIGN.md section 4 C20, section 3 E7"),
+ "C03": dict(cat="model_checking", engine="cserve",
+   technique="explicit-state search over the generated C objects themselves: byte-feed transitions (clone + one more source byte + one call, or close) with state-hash deduplication, and one-deviation walks from every prefix state of every seed, every call judged by per-transition invariants computed around it (ASan+UBSan build of C regenerated from the working tree)",
+   text="For each std decoder/hasher (quick 13 packages, thorough all 30) the C freshly generated from the working tree is compiled with ASan+UBSan (and plain with allocator counters) and explored: all 256 byte values to depth 2 (3) then a per-format reduced alphabet to depth 6 (8-10) with (object, unread source, destination, status) hash deduplication; from every prefix state of every seed (repository test files <= 4 KiB and reference-encoder output) every single-byte deviation followed by the rest of the seed and a short reduced-alphabet continuation, and every truncation; destination capacity {ample, 0, 1, 7}, work buffer {min, max}, closed {at end, never}; image/token decoders through their canonical call sequence. Oracle per call: sanitizer silence, exact-size source/destination allocations, buffer contract, status class, never 'internal error', no '$short read' on a closed source, no '$short write' into an empty ample destination that wrote nothing, '$short workbuf' answered by growing, disabled after error, zero allocator calls, the call returns.",
+   note="Bounded as stated (alphabets, depths, one deviation per seed); time-sliced per package and seed, caps are listed in the evidence and the run reports exhaustive:false when a slice ends early. Default quirks only; non-interface public methods are not reachable; images above 1 MiB of pixels are refused by the harness.",
+   ref="DESIGN.md section 4 C03, 10.1"),
 }
 
 NOT_YET = "check not built yet in this session (design in DESIGN.md section 4); no claim made"
